@@ -190,7 +190,7 @@ def run(ctx):
             continue
         npoints[s] = len(tr)
         dense = s in ("py", "wf_cf_child")
-        step = (4 if dense else 12) if quick else 1
+        step = ({"py": 5, "wf_cf_child": 36}.get(s, 36 if len(tr) > 200 else 15)) if quick else 1
         off = ctx.seed % step
         for k in range(1 + off, len(tr) + 1, step):
             cases.append({"scenario": s, "k": k, "site": f"{tr[k - 1][0]}+{tr[k - 1][1]}"})
@@ -201,7 +201,7 @@ def run(ctx):
     tr_cases = []
     rng = ctx.rng("trunc")
     if quick:
-        for i in range(24):
+        for i in range(16):
             tr_cases.append({"scenario": "py" if i % 3 else "big", "frac": rng.random(), "length": None,
                              "plant_lock": i % 2 == 0})
         tr_cases += [{"scenario": "py", "frac": 0, "length": 0, "plant_lock": False},
@@ -221,7 +221,7 @@ def run(ctx):
     ctx.extra["truncation_cases"] = len(res)
     if not quick:
         ctx.exhaustive = True
-    ctx.rule = ("crash before every (thorough) / every 4th-12th (quick, offset by seed) LINE event of the recorded execution "
+    ctx.rule = ("crash before every (thorough) / every 5th-36th (quick, offset by seed) LINE event of the recorded execution "
                 "path of each scenario (python task, shell task, failing task, workflow under debug, workflow under cf "
                 "crashing the parent or a pool child) + truncation of a complete result file to every (thorough, python "
                 "task) / sampled lengths; non-trivial = the victim really died at the point; distinct = distinct "
